@@ -28,7 +28,7 @@ IncSeqs(n, lo, hi) == IF n = 0 THEN {<<>>}
                       ELSE UNION {{<<x>> \o s : s \in IncSeqs(n - 1, x + 1, hi)} : x \in lo..hi}
 LevelSets == UNION {{<<0>> \o s \o <<Den>> : s \in IncSeqs(K - 1, 1, Den - 1)} : K \in 1..MaxLayers}
 
-SigmaBs == {<<1, 2>>, <<7, 10>>, <<3, 4>>}
+SigmaBs == {<<1, 2>>, <<7, 10>>, <<3, 4>>, <<1, 1>>}      \* sigma_b = 1: no boundary layer at all
 (* forcing parameters: kf, ka, ks in 1/day; minT, maxT, dTy, dThz in K; p 1 = the defaults *)
 Params ==
   {[id |-> 1, kf |-> <<1, 1>>, ka |-> <<1, 40>>, ks |-> <<1, 4>>, minT |-> 200, maxT |-> 315, dTy |-> 60, dThz |-> 10],
@@ -47,7 +47,9 @@ vars == <<b, sb, par, pc, tab, todo, st, out>>
 K == Len(b) - 1
 Center(k) == Norm(b[k] + b[k + 1], 2 * Den)
 (* np.maximum(0, (sigma - sigma_b) / (1 - sigma_b)) *)
-Cut(k) == RMax(Zero, RDiv(RSub(Center(k), sb), RSub(One, sb)))
+(* for sigma_b = 1 the quotient is -infinity at every layer centre (all centres are < 1) and the
+   maximum with 0 is 0: no drag, ka everywhere *)
+Cut(k) == IF sb = One THEN Zero ELSE RMax(Zero, RDiv(RSub(Center(k), sb), RSub(One, sb)))
 
 (* states: coefficients on abstract labels 1, 2 per level; dT = horizontally constant
    temperature increment per level *)
